@@ -39,7 +39,7 @@ type Node struct {
 	UID    uint32            `json:"uid"`
 	GID    uint32            `json:"gid"`
 	Mtime  int64             `json:"mtime"` // ns
-	Data   []byte            `json:"-"`
+	Data   []byte            `json:"data,omitempty"`
 	Link   string            `json:"link,omitempty"`
 	Major  uint32            `json:"major,omitempty"`
 	Minor  uint32            `json:"minor,omitempty"`
